@@ -17,7 +17,8 @@ import time
 from mc import core
 from mc.ref import refeval as E
 from mc.ref import harness as H
-from mc.props.c03 import judge, replay, L, V  # noqa: F401
+from mc.props.c03 import judge, L, V  # noqa: F401
+from mc.props.c03 import replay as _replay03
 
 PID = "C04"
 
@@ -340,6 +341,123 @@ def stray_programs():
     return progs
 
 
+# ---- comprehension == explicit loop, source-level differential --------------
+DIFF_SOURCES = [
+    ("[1, 2, 3, 4, 5, 6, 7]", [""]),
+    ("[3, 1, 3, 2]", [""]),
+    ("'abcabc'", [""]),
+    ("''", [""]),
+    ("<<3, 1, 2>>", [""]),
+    ("range(7)", [""]),
+    ("<<<3 => 'c', 1 => 'a', 2 => 'a'>>>", ["keys ", "entries "]),
+    ("<*a = 1, _hidden = 2, c = 3*>", ["keys ", "values ", "entries "]),
+    ("<*a = 1, _proto_ = <*z = 9*>, b = [2]*>", ["keys ", "entries "]),
+    ("<**>", ["keys "]),
+]
+DIFF_VALUES = ["x", "[x]", "string(x)"]
+DIFF_KEYS = ["string(x)", "length(string(x))", "1"]
+DIFF_CONDS = ["", "string(x) != 'a' and string(x) != '1'"]
+
+
+def comp_loop_pairs():
+    """(what, program) - each program returns [comprehension, loop result]"""
+    for src, sels in DIFF_SOURCES:
+        for sel in sels:
+            for cond in DIFF_CONDS:
+                cif = " if " + cond if cond else ""
+                lif = "if " + cond + " then " if cond else ""
+                for f in DIFF_VALUES:
+                    yield "list", (
+                        f"def s = {src}; [[{f} for x in {sel}s{cif}], "
+                        f"do def r = []; for x in {sel}s do "
+                        f"{lif}append(r, {f}); end; r end]")
+                    yield "set", (
+                        f"def s = {src}; [<<{f} for x in {sel}s{cif}>>, "
+                        f"do def r = <<>>; for x in {sel}s do "
+                        f"{lif}append(r, {f}); end; r end]")
+                    for k in DIFF_KEYS:
+                        yield "map", (
+                            f"def s = {src}; "
+                            f"[<<<{k} => {f} for x in {sel}s{cif}>>>, "
+                            f"do def r = <<<>>>; for x in {sel}s do "
+                            f"{lif}r[{k}] = {f}; end; r end]")
+
+
+    # effects and failures: the filter guards the value expression exactly as
+    # the `if` of the explicit loop does (evaluation order cond -> value)
+    pre = ("def lg = []; def val(x) do append(lg, 'v' + string(x)); x end; "
+           "def cond(x) do append(lg, 'c' + string(x)); x != 2 end; ")
+    forms = [
+        ("[val(x) for x in [1, 2, 3] if cond(x)]",
+         "for x in [1, 2, 3] do if cond(x) then append(r, val(x)); end",
+         "[]"),
+        ("<<val(x) for x in [1, 2, 3] if cond(x)>>",
+         "for x in [1, 2, 3] do if cond(x) then append(r, val(x)); end",
+         "<<>>"),
+        ("<<<val(x) => [val(x)] for x in [1, 2, 3] if cond(x)>>>",
+         "for x in [1, 2, 3] do if cond(x) then r[val(x)] = [val(x)]; end",
+         "<<<>>>"),
+        ("[[val(x), y] for x in [1, 2, 3] for y in [7, 8] if cond(x)]",
+         "for x in [1, 2, 3] do for y in [7, 8] do "
+         "if cond(x) then append(r, [val(x), y]); end; end", "[]"),
+        ("<<[val(x), y] for x in [1, 2, 3] for y in [7, 8] if cond(x)>>",
+         "for x in [1, 2, 3] do for y in [7, 8] do "
+         "if cond(x) then append(r, [val(x), y]); end; end", "<<>>"),
+        ("[1 / (x - 2) for x in [1, 2, 3] if x != 2]",
+         "for x in [1, 2, 3] do if x != 2 then append(r, 1 / (x - 2)); end",
+         "[]"),
+        ("<<1 / (x - 2) for x in [1, 2, 3] if x != 2>>",
+         "for x in [1, 2, 3] do if x != 2 then append(r, 1 / (x - 2)); end",
+         "<<>>"),
+        ("<<<x => 1 / (x - 2) for x in [1, 2, 3] if x != 2>>>",
+         "for x in [1, 2, 3] do if x != 2 then r[x] = 1 / (x - 2); end",
+         "<<<>>>"),
+        ("[1 / (x - 2) + y for x in [1, 2, 3] also for y in [0, 0, 0] "
+         "if x != 2]", None, None),
+    ]
+    for comp, loop, init in forms:
+        if loop is None:
+            yield "effects", (pre + f"[{comp}, [-1, 1]]")
+            continue
+        yield "effects", (
+            pre + f"def a = {comp}; def la = lg; lg = []; "
+            f"def r = {init}; {loop}; [[a, la], [r, lg]]")
+
+
+def diff_ok(src):
+    got, _ = H.run_impl_value(src)
+    return (got[0] == "value" and isinstance(got[1], list)
+            and len(got[1]) == 2 and core.strict_eq(got[1][0], got[1][1])), \
+        got
+
+
+def explore_comp_diff(chunk):
+    """a comprehension yields the same elements as the equivalent explicit
+    loop (implementation against implementation): objects with underscore
+    members and prototypes, strings and lists with repeats, map
+    comprehensions whose keys collide (the last one wins in both)"""
+    agg = core.Agg()
+    for what, src in comp_loop_pairs():
+        ok, got = diff_ok(src)
+        agg.count("steps")
+        agg.cls(("comp-diff", what, got[0]))
+        if not ok:
+            agg.violation({"part": "comp-vs-loop", "kind": what},
+                          {"src": src, "diff": True},
+                          "[v, v]", list(got), size=len(src))
+    agg.count("cases")
+    return agg
+
+
+def replay(case, verbose=False):
+    if case.get("diff"):
+        ok, got = diff_ok(case["src"])
+        if verbose:
+            print(case["src"], "->", got)
+        return not ok
+    return _replay03(case, verbose)
+
+
 def explore_stray(chunk):
     agg = core.Agg()
     for ast in chunk["programs"]:
@@ -384,6 +502,7 @@ def main(tier, seed):
     agg.merge(core.pmap(explore_order, [{"subsets": c} for c in
                                         core.chunked(subsets, core.NPROC)]))
     agg.merge(core.pmap(explore_comps, [{}]))
+    agg.merge(core.pmap(explore_comp_diff, [{}]))
     agg.merge(core.pmap(explore_stray, [{"programs": stray_programs()}]))
     core.finish(
         PID, tier, seed, agg, t0,
